@@ -78,6 +78,15 @@ pub struct InvoiceData {
     pub payee: String,
 }
 
+#[derive(Clone, Debug)]
+pub struct Freeze {
+    pub hash_hex: String,
+    pub after: u32,
+    /// the same scenario without the frozen payment (baseline for the differential oracle)
+    pub solo: Arc<WCfg>,
+    pub other_hash_hex: String,
+}
+
 #[derive(Clone, Debug, Default)]
 pub struct Seed {
     pub datastore: Vec<(Vec<String>, String, u64)>,
@@ -118,6 +127,9 @@ pub struct WCfg {
     pub reorder_delivery: bool,
     pub seed: Seed,
     pub probe: bool,
+    /// C14: payment `hash_hex` is frozen (none of its events is ever taken) once `after` of its events happened
+    pub freeze: Option<Freeze>,
+    pub max_stalls: u32,
     /// default resolution of a part is failure (pay fails on the default path)
     pub default_part_fails: bool,
     /// C13 differential: request labels of the baseline run (same scenario without the pass-through HTLCs)
@@ -159,6 +171,8 @@ impl WCfg {
             reorder_delivery: true,
             seed: Seed::default(),
             probe: false,
+            freeze: None,
+            max_stalls: 2,
             default_part_fails: false,
             baseline_reqs: None,
             max_depth: 90,
@@ -244,6 +258,7 @@ enum Ev {
     Fault { id: u64, applied: bool, transport: bool },
     Crash { apply: Vec<u64>, lose: bool, downtime_ms: u64 },
     Select(u32),
+    Stall(u64),
 }
 
 struct CountPolls<F> {
@@ -323,6 +338,11 @@ pub struct W {
     in_probe: bool,
     free_choice: bool,
     req_labels: Vec<String>,
+    stalls: u32,
+    a_events: u32,
+    history: Vec<String>,
+    last_labels: Vec<String>,
+    b_trace: Vec<String>,
     steps: usize,
 }
 
@@ -511,25 +531,40 @@ impl W {
             return Vec::new();
         }
         let deliverable = self.deliverable();
-        let any_held = self.hstate.iter().any(|h| matches!(h, HState::Held { .. }));
+        let frozen_now: Option<String> = cfg.freeze.as_ref().filter(|f| self.a_events >= f.after).map(|f| f.hash_hex.clone());
+        let any_held = (0..self.hstate.len()).any(|i| matches!(self.hstate[i], HState::Held { .. }) && Some(self.hash_of_template(i)) != frozen_now);
         let allow_faults = self.faults < cfg.max_faults && !self.in_probe;
         let last_resp = !self.last_step_responses.is_empty();
+        let allow_stall = self.stalls < cfg.max_stalls && !self.in_probe;
+        let frozen_hash: Option<String> = cfg.freeze.as_ref().filter(|f| self.a_events >= f.after).map(|f| f.hash_hex.clone());
+        let frozen_tag: Option<String> = frozen_hash.as_ref().map(|h| h[..4].to_string());
+        let mut stalled_evs: Vec<(Ev, String)> = Vec::new();
         self.sim.with(|s| {
-            // 1. answers
+            // 1. answers: the oldest pending request that was not stalled is the default
             let mut first = true;
             for p in s.pending.iter() {
+                if frozen_tag.is_some() && Sim::hash_tag(p.method, &p.params) == frozen_tag {
+                    continue;
+                }
                 if s.answerable(p) {
                     let e = (Ev::Answer(p.id), format!("Answer({})", p.label));
-                    if first {
-                        free.push(e);
-                        first = false;
+                    if p.stalled {
+                        stalled_evs.push(e);
                     } else {
-                        alts.push(e);
+                        if first {
+                            free.push(e);
+                            first = false;
+                        } else {
+                            alts.push(e);
+                        }
+                        if allow_stall {
+                            alts.push((Ev::Stall(p.id), format!("Stall({})", p.label)));
+                        }
                     }
                 }
             }
             // 2. pay command progress
-            for c in s.pays.iter().filter(|c| c.running) {
+            for c in s.pays.iter().filter(|c| c.running && Some(&c.hash) != frozen_hash.as_ref()) {
                 let own_pending: Vec<usize> = s
                     .parts
                     .iter()
@@ -541,33 +576,33 @@ impl W {
                 let spawn_ok = c.reject.is_none() && c.parts_created < cfg.max_parts;
                 // default step
                 if c.reject.is_some() {
-                    free.push((Ev::End(c.id, outcomes[0].clone()), format!("PayEnd(cmd{},{})", c.id, outcomes[0].label())));
+                    free.push((Ev::End(c.id, outcomes[0].clone()), format!("PayEnd({},{})", s.cmd_label(c.id), outcomes[0].label())));
                 } else if c.parts_created == 0 {
-                    free.push((Ev::Spawn(c.id), format!("PaySpawnPart(cmd{})", c.id)));
+                    free.push((Ev::Spawn(c.id), format!("PaySpawnPart({})", s.cmd_label(c.id))));
                     for o in outcomes.iter() {
-                        alts.push((Ev::End(c.id, o.clone()), format!("PayEnd(cmd{},{})", c.id, o.label())));
+                        alts.push((Ev::End(c.id, o.clone()), format!("PayEnd({},{})", s.cmd_label(c.id), o.label())));
                     }
                 } else if !own_pending.is_empty() {
                     // completion of the oldest pending part is listed under part resolutions (default there)
                     if spawn_ok {
-                        alts.push((Ev::Spawn(c.id), format!("PaySpawnPart(cmd{})", c.id)));
+                        alts.push((Ev::Spawn(c.id), format!("PaySpawnPart({})", s.cmd_label(c.id))));
                     }
                     for o in outcomes.iter() {
-                        alts.push((Ev::End(c.id, o.clone()), format!("PayEnd(cmd{},{})", c.id, o.label())));
+                        alts.push((Ev::End(c.id, o.clone()), format!("PayEnd({},{})", s.cmd_label(c.id), o.label())));
                     }
                 } else {
-                    free.push((Ev::End(c.id, outcomes[0].clone()), format!("PayEnd(cmd{},{})", c.id, outcomes[0].label())));
+                    free.push((Ev::End(c.id, outcomes[0].clone()), format!("PayEnd({},{})", s.cmd_label(c.id), outcomes[0].label())));
                     for o in outcomes.iter().skip(1) {
-                        alts.push((Ev::End(c.id, o.clone()), format!("PayEnd(cmd{},{})", c.id, o.label())));
+                        alts.push((Ev::End(c.id, o.clone()), format!("PayEnd({},{})", s.cmd_label(c.id), o.label())));
                     }
                     if spawn_ok {
-                        alts.push((Ev::Spawn(c.id), format!("PaySpawnPart(cmd{})", c.id)));
+                        alts.push((Ev::Spawn(c.id), format!("PaySpawnPart({})", s.cmd_label(c.id))));
                     }
                 }
             }
             // 3. part resolutions
             for (i, part) in s.parts.iter().enumerate() {
-                if part.status == PartStatus::Pending {
+                if part.status == PartStatus::Pending && Some(&part.hash) != frozen_hash.as_ref() {
                     let complete = (
                         Ev::Resolve(i, PartStatus::Complete),
                         format!("Part(g{}.p{}@{},Complete)", part.groupid, part.partid, &part.hash[..4]),
@@ -592,11 +627,24 @@ impl W {
             }
         });
         // 4. deliveries
-        for (n, t) in deliverable.iter().enumerate() {
+        let mut nth = 0;
+        for t in deliverable.iter() {
+            if frozen_hash.is_some() && Some(self.hash_of_template(*t)) == frozen_hash {
+                continue;
+            }
             let e = (Ev::Deliver(*t), format!("Deliver({})", cfg.templates[*t].spec.name));
-            if n == 0 {
+            if nth == 0 {
                 free.push(e);
             } else if cfg.reorder_delivery {
+                alts.push(e);
+            }
+            nth += 1;
+        }
+        // 4b. stalled requests are answered by default only when nothing else is left to do
+        for e in stalled_evs {
+            if free.is_empty() {
+                free.push(e);
+            } else {
                 alts.push(e);
             }
         }
@@ -632,6 +680,9 @@ impl W {
             if allow_faults {
                 self.sim.with(|s| {
                     for p in s.pending.iter() {
+                        if frozen_tag.is_some() && Sim::hash_tag(p.method, &p.params) == frozen_tag {
+                            continue;
+                        }
                         match p.method {
                             Method::Datastore if cfg.write_faults => {
                                 alts.push((
@@ -760,6 +811,13 @@ impl W {
             .map(|h| (h.clone(), self.sim.with(|s| (s.any_pending(h), s.any_complete(h), s.running_pay(h).is_some()))))
             .collect();
         for r in &reqs {
+            if let Some(f) = &self.cfg.freeze {
+                if r.params.to_string().contains(&f.other_hash_hex) || Sim::hash_tag(r.method, &r.params).as_deref() == Some(&f.other_hash_hex[..4]) {
+                    self.b_trace.push(format!("req {} {}", r.label, normalise_stamps(&r.params.to_string())));
+                }
+            } else if r.method != Method::Getinfo {
+                self.b_trace.push(format!("req {} {}", r.label, normalise_stamps(&r.params.to_string())));
+            }
             self.req_labels.push(r.label.clone());
             self.view.add(&("req", &r.label, r.params.to_string()));
             self.trace.push(format!("  plugin -> {} {}", r.label, compact(&r.params)));
@@ -805,6 +863,13 @@ impl W {
                     let rs = resp_string(&resp);
                     self.trace.push(format!("  plugin => {} : {}", self.cfg.templates[t].spec.name, short_resp(&rs)));
                     self.view.add(&("resp", t, &rs));
+                    let is_b = match &self.cfg.freeze {
+                        Some(f) => self.hash_of_template(t) == f.other_hash_hex,
+                        None => true,
+                    };
+                    if is_b {
+                        self.b_trace.push(format!("resp {} {}", self.cfg.templates[t].spec.name, rs));
+                    }
                     self.on_response(t, &rs, polls, ev);
                     by_hash.entry(self.hash_of_template(t)).or_default().push((t, rs.clone()));
                     self.hstate[t] = HState::Answered { resp: rs };
@@ -1306,8 +1371,41 @@ impl W {
         self.steps += 1;
     }
 
-    fn apply_ev(&mut self, ev: &Ev) {
+    /// Does this event belong to the payment that C14 freezes?
+    fn is_a_event(&self, ev: &Ev) -> bool {
+        let f = match &self.cfg.freeze {
+            Some(f) => f,
+            None => return false,
+        };
+        let tag = Some(f.hash_hex[..4].to_string());
         match ev {
+            Ev::Answer(id) | Ev::Stall(id) | Ev::Fault { id, .. } => self.sim.with(|s| {
+                s.pending_index(*id)
+                    .map(|i| Sim::hash_tag(s.pending[i].method, &s.pending[i].params) == tag)
+                    .unwrap_or(false)
+            }),
+            Ev::Spawn(c) | Ev::End(c, _) => self.sim.with(|s| s.pays[*c].hash == f.hash_hex),
+            Ev::Resolve(i, _) => self.sim.with(|s| s.parts[*i].hash == f.hash_hex),
+            Ev::Deliver(t) => self.hash_of_template(*t) == f.hash_hex,
+            _ => false,
+        }
+    }
+
+    fn apply_ev(&mut self, ev: &Ev) {
+        if self.is_a_event(ev) {
+            self.a_events += 1;
+        }
+        match ev {
+            Ev::Stall(id) => {
+                self.stalls += 1;
+                self.sim.with(|s| {
+                    if let Some(i) = s.pending_index(*id) {
+                        s.pending[i].stalled = true;
+                    }
+                });
+                self.view.add(&("stall", id));
+                self.steps += 1;
+            }
             Ev::Answer(id) => {
                 let (m, params) = self.sim.with(|s| {
                     let i = s.pending_index(*id).unwrap();
@@ -1483,6 +1581,27 @@ impl W {
     }
 }
 
+/// Replace wall-clock derived stamps (attempt ids: 19-digit nanosecond counts) by a placeholder.
+pub fn normalise_stamps(s: &str) -> String {
+    let mut out = String::new();
+    let mut run = String::new();
+    for c in s.chars().chain(std::iter::once(' ')) {
+        if c.is_ascii_digit() {
+            run.push(c);
+        } else {
+            if run.len() >= 19 {
+                out.push_str("<stamp>");
+            } else {
+                out.push_str(&run);
+            }
+            run.clear();
+            out.push(c);
+        }
+    }
+    out.pop();
+    out
+}
+
 /// Amounts travel as numbers or as "<n>msat" strings.
 pub fn amt(v: &serde_json::Value) -> Option<u64> {
     match v {
@@ -1602,6 +1721,11 @@ impl Model for W {
             in_probe: false,
             free_choice: false,
             req_labels: Vec::new(),
+            stalls: 0,
+            a_events: 0,
+            history: Vec::new(),
+            last_labels: Vec::new(),
+            b_trace: Vec::new(),
             steps: 0,
         };
         w.boot();
@@ -1613,12 +1737,16 @@ impl Model for W {
     fn enabled(&mut self) -> Vec<Choice> {
         let evs = self.compute_events();
         self.events = evs.iter().map(|e| e.0.clone()).collect();
+        self.last_labels = evs.iter().map(|e| e.1.label.clone()).collect();
         evs.into_iter().map(|e| e.1).collect()
     }
 
     fn apply(&mut self, idx: usize) {
         let ev = self.events[idx].clone();
         self.free_choice = idx == 0;
+        if let Some(l) = self.last_labels.get(idx) {
+            self.history.push(l.clone());
+        }
         self.trace.push(format!("{}", self.label_of(&ev)));
         self.apply_ev(&ev);
     }
@@ -1673,6 +1801,53 @@ impl Model for W {
                         self.violate("C02", "settled-if-complete", "outgoing payment completed but a held HTLC was not settled with its preimage".into(), d.clone());
                         self.violate("C05", "settle-from-record", "invoice paid, but a later/held HTLC was not settled from the known preimage".into(), d);
                     }
+                }
+            }
+        }
+        // C14 differential: the other payment's plugin-visible trace equals its trace without the frozen one
+        if let Some(f) = &cfg.freeze {
+            let btag = format!("@{}", &f.other_hash_hex[..4]);
+            let projected: Vec<String> = self
+                .history
+                .iter()
+                .filter(|l| l.contains(&btag) || l.starts_with("Deliver(b") || l.starts_with("Advance(") || l.starts_with("Block(") || l.starts_with("Height("))
+                .cloned()
+                .collect();
+            let held_b: Vec<String> = (0..self.hstate.len())
+                .filter(|i| matches!(self.hstate[*i], HState::Held { .. }) && self.hash_of_template(*i) == f.other_hash_hex)
+                .map(|i| cfg.templates[i].spec.name.clone())
+                .collect();
+            if !held_b.is_empty() {
+                self.violate(
+                    "C14",
+                    "progress",
+                    "a payment did not finish while a payment for a different hash was frozen".into(),
+                    format!("unanswered {:?}; frozen after {} events of the other payment", held_b, f.after),
+                );
+            } else {
+                match crate::explore::replay_labels::<W>(&f.solo, &projected, false) {
+                    Ok(solo) => {
+                        if solo.b_trace != self.b_trace {
+                            let i = solo.b_trace.iter().zip(self.b_trace.iter()).position(|(a, b)| a != b).unwrap_or(solo.b_trace.len().min(self.b_trace.len()));
+                            self.violate(
+                                "C14",
+                                "same-trace",
+                                "requests / responses of a payment differ from its run without the other (frozen) payment".into(),
+                                format!(
+                                    "first difference at {}: with {:?} / alone {:?}",
+                                    i,
+                                    self.b_trace.get(i).map(|s| short_resp(s)),
+                                    solo.b_trace.get(i).map(|s| short_resp(s))
+                                ),
+                            );
+                        }
+                    }
+                    Err(e) => self.violate(
+                        "C14",
+                        "same-trace",
+                        "the events of a payment cannot be replayed without the other (frozen) payment: its behaviour depends on it".into(),
+                        e.chars().take(300).collect(),
+                    ),
                 }
             }
         }
